@@ -186,7 +186,13 @@ struct Real {
     excused: BTreeMap<String, (i64, &'static str)>,
     /// the part of the deficit that was reported under a class of its own (not excused by a known finding)
     unexcused: BTreeMap<String, i64>,
+    /// long-lived-store streams (`aging`): `_created` stays the wall-clock second the store wrote; the image shows it
+    /// relative to this base second (model clock = second - base + CLOCK0)
+    epoch: Option<u64>,
 }
+
+/// model clock of the first second of an `aging` case
+const CLOCK0: u64 = 1000;
 
 fn cfg(chunk: usize, max: Option<usize>) -> BlobConfig {
     let mut c = BlobConfig::new().with_chunk_size(chunk).with_gc_batch_size(1 << 20);
@@ -198,10 +204,13 @@ fn cfg(chunk: usize, max: Option<usize>) -> BlobConfig {
 
 impl Real {
     fn new(chunk: usize, max: Option<usize>) -> Real {
+        Real::with_config(chunk, max, cfg(chunk, max))
+    }
+    fn with_config(chunk: usize, max: Option<usize>, conf: BlobConfig) -> Real {
         static RT: std::sync::OnceLock<tokio::runtime::Runtime> = std::sync::OnceLock::new();
         let rt = RT.get_or_init(|| tokio::runtime::Builder::new_current_thread().enable_all().build().unwrap());
         let ts = TensorStore::new();
-        let blob = bo(BlobStore::new(ts.clone(), cfg(chunk, max))).unwrap();
+        let blob = bo(BlobStore::new(ts.clone(), conf)).unwrap();
         Real {
             rt,
             ts,
@@ -217,6 +226,7 @@ impl Real {
             slack: false,
             excused: BTreeMap::new(),
             unexcused: BTreeMap::new(),
+            epoch: None,
         }
     }
     fn uuid_of(&self, a: u32) -> String {
@@ -234,7 +244,7 @@ impl Real {
     fn restamp(&mut self, t: u64, rep: &mut Report, input: &dyn Fn() -> Value) {
         for k in self.ts.scan(CHUNK_PREFIX) {
             if let Ok(mut rec) = self.ts.get(&k) {
-                if t_int(&rec, "_created").unwrap_or(0) > 1_500_000_000 {
+                if self.epoch.is_none() && t_int(&rec, "_created").unwrap_or(0) > 1_500_000_000 {
                     rec.set("_created", TensorValue::Scalar(ScalarValue::Int(t as i64 * LT)));
                     let _ = self.ts.put(&k, rec.clone());
                 }
@@ -286,7 +296,11 @@ impl Real {
                 let d = t_bytes(&rec, "_data").map(|d| hex(&d)).unwrap_or_else(|| "?".into());
                 let refs = t_int(&rec, "_refs").unwrap_or(-1);
                 let cr = t_int(&rec, "_created").unwrap_or(-1);
-                let crs = if cr % LT == 0 { (cr / LT).to_string() } else { format!("raw{cr}") };
+                let crs = match self.epoch {
+                    Some(b) => (cr - b as i64 + CLOCK0 as i64).to_string(),
+                    None if cr % LT == 0 => (cr / LT).to_string(),
+                    None => format!("raw{cr}"),
+                };
                 cs.push(format!("{kd}={d}:{refs}:{crs}"));
             }
         }
@@ -2396,6 +2410,843 @@ fn conc_stream(m: &mut Model, rep: &mut Report, r: &mut Rng, rounds: u64) {
     }
 }
 
+// ---------------------------------------------------------------- a long-lived store under the wall clock (`aging`)
+//
+// Every other stream builds a FRESH BlobStore (hence a fresh GarbageCollector) for each gc() call, with a `min_age`
+// computed for that call, and moves time by rewriting `_created`.  Here ONE BlobStore with a fixed `gc_min_age` serves a
+// whole case — put / writers / delete / gc() / the background task / full_gc() / repair() — and time is the wall clock:
+// `tick n` waits until n more seconds have passed.  Many cases run in lockstep (each executes its operations up to its
+// next tick, then all wait for the next second together), so a batch costs a few seconds whatever its size.
+// Model: Blob/Aging.lean (`applyC`; the driver's `clock` / `c <op>` lines); the model clock follows the seconds the real
+// operations ran in.  A case in which the second changed DURING a clock-reading operation is dropped (ambiguous clock).
+
+#[derive(Clone, Debug, PartialEq)]
+enum AOp {
+    Put(Vec<u8>),
+    Stream(Vec<Vec<u8>>),
+    Abandon(Vec<Vec<u8>>),
+    WOpen(u32),
+    WWrite(u32, Vec<u8>),
+    WFinish(u32),
+    WDrop(u32),
+    Delete(u32),
+    Get(u32),
+    Verify(u32),
+    /// `BlobStore::gc()` on the long-lived store
+    Gc,
+    /// `start()`, at least one tick of the background task (same GarbageCollector), `shutdown()`
+    BgGc,
+    FullGc,
+    Repair,
+    /// n wall-clock seconds pass
+    Tick(u32),
+}
+
+#[derive(Clone, Debug)]
+struct ACase {
+    name: Option<String>,
+    chunk: usize,
+    min_age: u64,
+    /// gc_batch_size below the chunk count: each cycle looks at a part of the scan
+    batch: Option<usize>,
+    ops: Vec<AOp>,
+}
+
+fn aop_json(op: &AOp) -> Value {
+    match op {
+        AOp::Put(d) => json!({"put": hex(d)}),
+        AOp::Stream(p) => json!({"stream": pieces_txt(p)}),
+        AOp::Abandon(p) => json!({"abandon": pieces_txt(p)}),
+        AOp::WOpen(w) => json!({"wopen": w}),
+        AOp::WWrite(w, d) => json!({"wwrite": w, "data": hex(d)}),
+        AOp::WFinish(w) => json!({"wfinish": w}),
+        AOp::WDrop(w) => json!({"wdrop": w}),
+        AOp::Delete(a) => json!({"delete": a}),
+        AOp::Get(a) => json!({"get": a}),
+        AOp::Verify(a) => json!({"verify": a}),
+        AOp::Gc => json!("gc"),
+        AOp::BgGc => json!("background_gc_tick"),
+        AOp::FullGc => json!("full_gc"),
+        AOp::Repair => json!("repair"),
+        AOp::Tick(n) => json!({"seconds_pass": n}),
+    }
+}
+
+fn acase_json(c: &ACase) -> Value {
+    json!({"stream": "aging", "name": c.name, "store": "ONE BlobStore for the whole case (wall clock, no restamping)",
+        "chunk_size": c.chunk, "gc_min_age_secs": c.min_age, "gc_batch_size": c.batch,
+        "ops": c.ops.iter().map(aop_json).collect::<Vec<_>>()})
+}
+
+/// full_gc / repair only while no writer is open (the known findings are not this stream's subject)
+fn aging_quiet(ops: &[AOp]) -> bool {
+    let mut open: BTreeSet<u32> = BTreeSet::new();
+    for op in ops {
+        match op {
+            AOp::WOpen(w) => {
+                open.insert(*w);
+            }
+            AOp::WFinish(w) | AOp::WDrop(w) => {
+                open.remove(w);
+            }
+            AOp::FullGc | AOp::Repair if !open.is_empty() => return false,
+            _ => {}
+        }
+    }
+    true
+}
+
+struct ARec {
+    /// clock lines for the model before the operation (`c tick n`)
+    pre: Vec<String>,
+    line: String,
+    imp: String,
+    image: String,
+    bg: bool,
+}
+
+/// chunk records as the collector sees them: key -> (refs, created, size)
+fn chunk_snap(ts: &TensorStore) -> BTreeMap<String, (i64, i64, i64, Vec<u8>)> {
+    ts.scan(CHUNK_PREFIX)
+        .into_iter()
+        .filter_map(|k| ts.get(&k).ok().map(|t| (k, (t_int(&t, "_refs").unwrap_or(-1), t_int(&t, "_created").unwrap_or(-1), t_int(&t, "_size").unwrap_or(-1), t_bytes(&t, "_data").unwrap_or_default()))))
+        .collect()
+}
+
+struct ARun {
+    case: ACase,
+    r: Real,
+    pos: usize,
+    /// do not run before this second (a tick is pending)
+    wake_at: u64,
+    last_sec: u64,
+    recs: Vec<ARec>,
+    /// (class, what, index of the operation)
+    vios: Vec<(String, String, usize)>,
+    discarded: Option<&'static str>,
+    wrote: bool,
+    changed: bool,
+    hits: Vec<String>,
+    /// keys a cycle found unreferenced and too young; those of them that were referenced again afterwards
+    seen_young: BTreeSet<String>,
+    rereferenced: BTreeSet<String>,
+    /// chunk key -> the part of (listings + open-writer holds - `_refs`) that has been reported already
+    deficit: BTreeMap<String, i64>,
+    done: bool,
+}
+
+impl ARun {
+    fn new(case: &ACase) -> ARun {
+        let conf = cfg(case.chunk, None)
+            .with_gc_min_age(Duration::from_secs(case.min_age))
+            .with_gc_batch_size(case.batch.unwrap_or(1 << 20))
+            .with_gc_interval(Duration::from_millis(1));
+        ARun {
+            case: case.clone(),
+            r: Real::with_config(case.chunk, None, conf),
+            pos: 0,
+            wake_at: 0,
+            last_sec: 0,
+            recs: vec![],
+            vios: vec![],
+            discarded: None,
+            wrote: false,
+            changed: false,
+            hits: vec![],
+            seen_young: BTreeSet::new(),
+            rereferenced: BTreeSet::new(),
+            deficit: BTreeMap::new(),
+            done: false,
+        }
+    }
+
+    fn v(&mut self, class: &str, what: &str) {
+        let at = self.pos;
+        if !self.vios.iter().any(|x| x.0 == class) {
+            self.vios.push((class.to_string(), what.to_string(), at));
+        }
+    }
+
+    /// run the operations up to (and including) the next tick
+    fn advance(&mut self) {
+        if self.done || now_secs() < self.wake_at {
+            return;
+        }
+        while self.pos < self.case.ops.len() {
+            let op = self.case.ops[self.pos].clone();
+            if let AOp::Tick(n) = op {
+                self.wake_at = now_secs() + n as u64;
+                self.pos += 1;
+                return;
+            }
+            self.step(&op);
+            self.pos += 1;
+            if self.discarded.is_some() {
+                self.done = true;
+                return;
+            }
+        }
+        // O4: after deleting every artifact a full collection leaves no chunks
+        if self.vios.is_empty() {
+            self.r.writers.clear();
+            for id in bo(self.r.blob.list(None)).unwrap_or_default() {
+                let _ = bo(self.r.blob.delete(&id));
+            }
+            let _ = bo(self.r.blob.full_gc());
+            if !self.r.ts.scan(CHUNK_PREFIX).is_empty() || !self.r.ts.scan(META_PREFIX).is_empty() {
+                self.v("tensor_blob.full_gc/chunks_left_after_delete_all", "chunks remain after deleting every artifact and running full_gc");
+            }
+        }
+        self.done = true;
+    }
+
+    fn step(&mut self, op: &AOp) {
+        let chunk = self.case.chunk;
+        let min_age = self.case.min_age;
+        let s0 = now_secs();
+        let mut pre = vec![];
+        if self.r.epoch.is_none() {
+            self.r.epoch = Some(s0);
+            self.last_sec = s0;
+        }
+        if s0 > self.last_sec {
+            pre.push(format!("c tick {}", s0 - self.last_sec));
+            self.last_sec = s0;
+        }
+        let before = chunk_snap(&self.r.ts);
+        let occ_before = occurrences(&self.r.ts);
+        let holds_before = self.r.holds();
+        let mut collector: Option<&'static str> = None;
+        let mut reads_clock = false;
+        let mut wrote_now: Option<(usize, Vec<u8>)> = None;
+        let mut finished_now = false;
+        let mut bg = false;
+        let (line, imp): (String, String) = match op {
+            AOp::Put(d) => {
+                reads_clock = true;
+                let a = match bo(self.r.blob.put("f", d, PutOptions::default())) {
+                    Ok(id) => {
+                        let ix = self.r.alpha(&id);
+                        wrote_now = Some((ix, d.clone()));
+                        format!("ok a{ix}")
+                    }
+                    Err(e) => err_class(&e).to_string(),
+                };
+                (format!("put {}", hex(d)), a)
+            }
+            AOp::Stream(ps) | AOp::Abandon(ps) => {
+                reads_clock = true;
+                let fin = matches!(op, AOp::Stream(_));
+                let mut w = bo(self.r.blob.writer("f", PutOptions::default())).unwrap();
+                let mut all = Vec::new();
+                let mut err = None;
+                for p in ps {
+                    all.extend_from_slice(p);
+                    if let Err(e) = bo(w.write(p)) {
+                        err = Some(err_class(&e).to_string());
+                    }
+                }
+                if fin {
+                    let a = match bo(w.finish()) {
+                        Ok(id) => {
+                            let ix = self.r.alpha(&id);
+                            wrote_now = Some((ix, all));
+                            format!("ok a{ix}")
+                        }
+                        Err(e) => err_class(&e).to_string(),
+                    };
+                    (format!("stream {}", pieces_txt(ps)), err.unwrap_or(a))
+                } else {
+                    drop(w);
+                    self.r.slack = true;
+                    (format!("abandon {}", pieces_txt(ps)), err.unwrap_or_else(|| "ok".into()))
+                }
+            }
+            AOp::WOpen(wid) => {
+                let w = bo(self.r.blob.writer("f", PutOptions::default())).unwrap();
+                self.r.writers.insert(*wid, OpenWriter { w, bytes: vec![] });
+                self.r.slack = true;
+                (format!("wopen {wid}"), "ok".into())
+            }
+            AOp::WWrite(wid, d) => {
+                reads_clock = true;
+                let line = format!("wwrite {wid} {}", hex(d));
+                match self.r.writers.get_mut(wid) {
+                    None => (line, "bad-op".into()),
+                    Some(ow) => {
+                        ow.bytes.extend_from_slice(d);
+                        let a = match bo(ow.w.write(d)) {
+                            Ok(()) => format!("ok {} {}", ow.w.chunks_written(), ow.w.bytes_written()),
+                            Err(e) => err_class(&e).to_string(),
+                        };
+                        (line, a)
+                    }
+                }
+            }
+            AOp::WFinish(wid) => {
+                reads_clock = true;
+                let line = format!("wfinish {wid}");
+                match self.r.writers.remove(wid) {
+                    None => (line, "bad-op".into()),
+                    Some(ow) => (line, match bo(ow.w.finish()) {
+                        Ok(id) => {
+                            let ix = self.r.alpha(&id);
+                            finished_now = true;
+                            wrote_now = Some((ix, ow.bytes.clone()));
+                            format!("ok a{ix}")
+                        }
+                        Err(e) => err_class(&e).to_string(),
+                    }),
+                }
+            }
+            AOp::WDrop(wid) => {
+                self.r.writers.remove(wid);
+                (format!("wdrop {wid}"), "ok".into())
+            }
+            AOp::Get(a) => {
+                let id = self.r.uuid_of(*a);
+                (format!("get a{a}"), match bo(self.r.blob.get(&id)) {
+                    Ok(d) => format!("ok {}", hex(&d)),
+                    Err(e) => err_class(&e).to_string(),
+                })
+            }
+            AOp::Verify(a) => {
+                let id = self.r.uuid_of(*a);
+                (format!("verify a{a}"), match self.r.blob.verify(&id) {
+                    Ok(b) => format!("ok {b}"),
+                    Err(e) => err_class(&e).to_string(),
+                })
+            }
+            AOp::Delete(a) => {
+                let id = self.r.uuid_of(*a);
+                (format!("delete a{a}"), match bo(self.r.blob.delete(&id)) {
+                    Ok(()) => {
+                        self.r.expect.insert(*a as usize, None);
+                        self.changed = true;
+                        "ok".to_string()
+                    }
+                    Err(e) => err_class(&e).to_string(),
+                })
+            }
+            AOp::Gc => {
+                collector = Some("gc");
+                reads_clock = true;
+                let blob = &self.r.blob;
+                let (s, calls) = record_calls(|| bo(blob.gc()).unwrap());
+                if s.deleted > 0 {
+                    self.changed = true;
+                }
+                let line = match self.case.batch {
+                    None => "gc".to_string(),
+                    Some(b) => {
+                        // the keys the cycle looked at: its `get` calls, in the (arbitrary) order of the scan
+                        let seen: Vec<String> = calls.iter().filter(|(site, k)| *site == "store.get" && k.starts_with(CHUNK_PREFIX)).map(|x| x.1.clone()).collect();
+                        let uniq: BTreeSet<&String> = seen.iter().collect();
+                        if seen.len() != before.len().min(b) || uniq.len() != seen.len() || seen.iter().any(|k| !before.contains_key(k)) {
+                            self.v("tensor_blob.gc/batch_not_a_part_of_the_scan", "gc_cycle did not look at min(batch_size, chunk count) distinct existing chunk keys");
+                        }
+                        self.hits.push(format!("aging.gc_batch.{}", if b < before.len() { "partial" } else { "whole" }));
+                        let ks: Vec<String> = seen.iter().map(|k| self.r.known.get(k).map(|d| hex(d)).unwrap_or_else(|| "?".into())).collect();
+                        format!("gcsel {}", if ks.is_empty() { ".".to_string() } else { ks.join(",") })
+                    }
+                };
+                (line, format!("ok {} {}", s.deleted, s.freed_bytes))
+            }
+            AOp::BgGc => {
+                collector = Some("gc");
+                reads_clock = true;
+                bg = true;
+                let rt = self.r.rt;
+                let ts2 = self.r.ts.clone();
+                let blob = &mut self.r.blob;
+                // the task's own scans of the chunk records tell that at least one cycle has run
+                let cycles = Arc::new(Mutex::new(0usize));
+                let probing = Arc::new(std::sync::atomic::AtomicBool::new(false));
+                let (c2, p2) = (cycles.clone(), probing.clone());
+                tensor_store::verif::set_yield_hook(Some(Box::new(move |site, k| {
+                    if site == "store.scan" && k.starts_with(CHUNK_PREFIX) && !p2.load(std::sync::atomic::Ordering::SeqCst) {
+                        *c2.lock().unwrap() += 1;
+                    }
+                })));
+                rt.block_on(async {
+                    blob.start().await.unwrap();
+                    blob.start().await.unwrap(); // second start is a no-op
+                    for _ in 0..400 {
+                        tokio::time::sleep(Duration::from_millis(2)).await;
+                        let mc = now_secs().saturating_sub(min_age) as i64;
+                        probing.store(true, std::sync::atomic::Ordering::SeqCst);
+                        let pending = ts2.scan(CHUNK_PREFIX).iter().any(|k| {
+                            ts2.get(k).map(|t| t_int(&t, "_refs") == Some(0) && t_int(&t, "_created").unwrap_or(i64::MAX) < mc).unwrap_or(false)
+                        });
+                        probing.store(false, std::sync::atomic::Ordering::SeqCst);
+                        if !pending && *cycles.lock().unwrap() >= 1 {
+                            break;
+                        }
+                    }
+                    blob.shutdown().await.unwrap();
+                });
+                tensor_store::verif::set_yield_hook(None);
+                if *cycles.lock().unwrap() == 0 {
+                    self.discarded = Some("background_task_never_ticked");
+                    return;
+                }
+                ("gc".to_string(), "ok".to_string())
+            }
+            AOp::FullGc => {
+                collector = Some("full_gc");
+                ("fullgc".into(), match bo(self.r.blob.full_gc()) {
+                    Ok(s) => {
+                        if s.deleted > 0 {
+                            self.changed = true;
+                        }
+                        format!("ok {} {}", s.deleted, s.freed_bytes)
+                    }
+                    Err(e) => err_class(&e).to_string(),
+                })
+            }
+            AOp::Repair => {
+                collector = Some("repair");
+                ("repair".into(), match self.r.blob.repair() {
+                    Ok(s) => format!("ok {} {} {} {}", s.artifacts_checked, s.chunks_verified, s.refs_fixed, s.orphans_deleted),
+                    Err(e) => err_class(&e).to_string(),
+                })
+            }
+            AOp::Tick(_) => unreachable!(),
+        };
+        let s1 = now_secs();
+        if reads_clock && s1 != s0 {
+            // the operation read the clock while the second changed: which second it saw is not observable
+            self.discarded = Some("second_changed_during_operation");
+            return;
+        }
+        // learn the content of new records (no restamping: `epoch` is set)
+        let mut scratch = Report::new("");
+        let case_for_input = self.case.clone();
+        self.r.restamp(0, &mut scratch, &|| acase_json(&case_for_input));
+        if !scratch.violations.is_empty() {
+            self.v("tensor_blob.store_chunk/key_not_content_hash", "a new chunk record is not keyed by the hash of its data");
+        }
+        let tag = line.split(' ').next().unwrap_or("?").to_string();
+        let res_class = imp.split(' ').take(if imp.starts_with("err") { 2 } else { 1 }).collect::<Vec<_>>().join("_");
+        self.hits.push(format!("aging.op.{}.{res_class}", if bg { "background_gc" } else { tag.as_str() }));
+        let image = self.r.image();
+        self.recs.push(ARec { pre, line: line.clone(), imp, image, bg });
+
+        // ---- oracles on the implementation's own outputs
+        let after = chunk_snap(&self.r.ts);
+        let occ_after = occurrences(&self.r.ts);
+        let holds_after = self.r.holds();
+        let demand_before = |k: &String| occ_before.get(k).copied().unwrap_or(0) + holds_before.get(k).copied().unwrap_or(0);
+        if collector == Some("gc") {
+            // CycleSpec (Blob/Aging.lean; Props2: cycle_removing_only_currently_unreferenced_records_is_safe): one cycle only
+            // removes records, and only records whose `_refs` is 0 in the store AS IT IS WHEN THE CYCLE RUNS — whatever the
+            // collector saw in earlier cycles.
+            let mc = (s0 as i64).saturating_sub(min_age as i64);
+            for (k, (refs, created, _, _)) in &before {
+                if !after.contains_key(k) {
+                    if *refs != 0 {
+                        self.v("tensor_blob.gc/removed_record_with_references", "an incremental gc cycle on a long-lived store removed a chunk record whose `_refs` was not 0 when the cycle ran");
+                    }
+                    if demand_before(k) > 0 {
+                        self.v("tensor_blob.gc/referenced_chunk_collected_sequentially", "sequential history: incremental gc() removed a chunk that an open writer had written or that a finished artifact lists");
+                    }
+                    if *created >= mc {
+                        self.v("tensor_blob.gc/young_chunk_collected", "an incremental gc cycle removed a chunk record younger than gc_min_age");
+                    }
+                } else if *refs == 0 && *created >= mc {
+                    self.seen_young.insert(k.clone());
+                } else if *refs > 0 && *created < mc && self.rereferenced.contains(k) {
+                    self.hits.push("aging.shape.young_orphan_seen_then_rereferenced_then_cycle_after_it_aged".to_string());
+                }
+            }
+            for (k, rec) in &after {
+                if before.get(k) != Some(rec) {
+                    self.v("tensor_blob.gc/cycle_altered_record", "an incremental gc cycle added or altered a chunk record");
+                }
+            }
+            if occ_after != occ_before {
+                self.v("tensor_blob.gc/cycle_altered_metadata", "an incremental gc cycle changed the artifacts' chunk lists");
+            }
+        }
+        for k in self.seen_young.clone() {
+            if after.get(&k).map(|x| x.0 > 0).unwrap_or(false) {
+                self.rereferenced.insert(k);
+            }
+        }
+        // reference accounting: every chunk written by an open writer or listed by a finished artifact exists and has
+        // `_refs` >= listings + open-writer holds (full_gc / repair never run while a writer is open in this stream)
+        // (a deficit is reported by the operation that causes or widens it, not again by the operations after it)
+        let mut keys: BTreeSet<String> = occ_after.keys().chain(holds_after.keys()).cloned().collect();
+        keys.extend(self.deficit.keys().cloned());
+        for k in &keys {
+            let demand = occ_after.get(k).copied().unwrap_or(0) + holds_after.get(k).copied().unwrap_or(0);
+            let refs = after.get(k).map(|x| x.0).unwrap_or(0);
+            let d = (demand - refs).max(0);
+            if d > self.deficit.get(k).copied().unwrap_or(0) {
+                let removed = before.contains_key(k) && !after.contains_key(k);
+                let class = match collector {
+                    Some("gc") if removed => "tensor_blob.gc/referenced_chunk_collected_sequentially".to_string(),
+                    Some("gc") => "tensor_blob.gc/refs_below_references".to_string(),
+                    Some(site) => format!("tensor_blob.{site}/listed_chunk_damaged"),
+                    None if matches!(tag.as_str(), "put" | "stream" | "abandon" | "wwrite" | "wfinish") => "tensor_blob.store_chunk/reference_not_taken".to_string(),
+                    None => format!("tensor_blob.{tag}/refs_below_references"),
+                };
+                self.v(&class, "long-lived store, one thread: after this operation a chunk's `_refs` (0 if the record is gone) is below its listings by finished artifacts plus its occurrences in the chunk lists of open writers");
+            }
+            if d > 0 {
+                self.deficit.insert(k.clone(), d);
+            } else {
+                self.deficit.remove(k);
+            }
+        }
+        if let Some((ix, bytes)) = wrote_now {
+            self.wrote = true;
+            let id = self.r.ids[ix].clone();
+            if bo(self.r.blob.get(&id)).ok().as_ref() != Some(&bytes) {
+                if finished_now {
+                    self.v("tensor_blob.writer/finished_artifact_unreadable", "an artifact whose streaming writer stayed open across other operations finished successfully but cannot be read back");
+                } else {
+                    self.v("tensor_blob.get/read_differs_from_written", "get() right after a successful write does not return the written bytes");
+                }
+            } else {
+                self.r.expect.insert(ix, Some(bytes));
+            }
+        }
+        // every artifact that was not deleted still reads back as written, through get, the streaming reader and verify
+        for (ix, e) in self.r.expect.clone() {
+            let Some(bytes) = e else { continue };
+            let id = self.r.ids[ix].clone();
+            if bo(self.r.blob.get(&id)).ok().as_ref() != Some(&bytes) {
+                let class = match collector {
+                    Some("gc") => "tensor_blob.gc/referenced_chunk_collected_sequentially".to_string(),
+                    Some(site) => format!("tensor_blob.{site}/live_artifact_unreadable"),
+                    None => format!("tensor_blob.{tag}/other_artifact_damaged"),
+                };
+                self.v(&class, "long-lived store: an artifact that was not deleted no longer reads back as written");
+                self.r.expect.insert(ix, None);
+                continue;
+            }
+            if (self.pos + ix) % 3 == 0 {
+                let bufsz = 1 + (self.pos * 7 + ix * 3) % (2 * chunk + 2);
+                if read_by_buffers(&self.r.blob, &id, bufsz).ok().as_ref() != Some(&bytes) {
+                    self.v("tensor_blob.reader/read_differs_from_written", "BlobReader::read() with a fixed buffer size, repeated until it returns 0, does not return the written bytes");
+                }
+                if check_chunks_exist(&self.r.ts, &id).ok().map(|l| l.is_empty()) != Some(true) {
+                    self.v("tensor_blob.check_chunks_exist/false_alarm", "check_chunks_exist() reports a missing chunk of an undamaged artifact");
+                }
+            }
+            if self.r.blob.verify(&id).ok() != Some(true) {
+                self.v("tensor_blob.verify/false_alarm", "verify() is not Ok(true) on an undamaged artifact");
+            }
+        }
+    }
+}
+
+fn wait_for_second_after(sec: u64) -> u64 {
+    loop {
+        let n = now_secs();
+        if n > sec {
+            return n;
+        }
+        std::thread::sleep(Duration::from_millis(3));
+    }
+}
+
+/// Run the cases in lockstep on the wall clock: each phase starts right after a second boundary; every case executes its
+/// operations up to its next tick.
+fn run_aging_batch(cases: &[ACase]) -> Vec<ARun> {
+    let mut runs: Vec<ARun> = cases.iter().map(ARun::new).collect();
+    let mut sec = wait_for_second_after(now_secs());
+    for _phase in 0..64 {
+        for run in runs.iter_mut() {
+            run.advance();
+        }
+        if runs.iter().all(|r| r.done) {
+            break;
+        }
+        sec = wait_for_second_after(sec);
+    }
+    runs
+}
+
+/// smaller versions of a failing case: contiguous blocks of operations removed (halves, quarters, .., single ones),
+/// shorter waits, smaller min_age
+fn aging_candidates(c: &ACase) -> Vec<ACase> {
+    let mut out: Vec<ACase> = vec![];
+    let n = c.ops.len();
+    let mut g = n / 2;
+    while g >= 1 {
+        let mut i = 0;
+        while i < n {
+            let mut ops = c.ops.clone();
+            ops.drain(i..(i + g).min(n));
+            if aging_quiet(&ops) && !out.iter().any(|x| x.ops == ops && x.min_age == c.min_age) {
+                out.push(ACase { ops, name: None, ..c.clone() });
+            }
+            i += g;
+        }
+        g /= 2;
+    }
+    for (i, op) in c.ops.iter().enumerate() {
+        if let AOp::Tick(k) = op {
+            if *k > 1 {
+                let mut ops = c.ops.clone();
+                ops[i] = AOp::Tick(k - 1);
+                out.push(ACase { ops, name: None, ..c.clone() });
+            }
+        }
+    }
+    if c.batch.is_some() {
+        out.push(ACase { batch: None, name: None, ..c.clone() });
+    }
+    out
+}
+
+fn ticks_of(c: &ACase) -> u32 {
+    c.ops.iter().map(|o| if let AOp::Tick(n) = o { *n } else { 0 }).sum()
+}
+
+/// shrink a failing case; every round runs all candidates in lockstep (one batch = a few seconds)
+fn shrink_aging(case: &ACase, class: &str) -> ACase {
+    let mut cur = case.clone();
+    for _round in 0..10 {
+        let cands = aging_candidates(&cur);
+        if cands.is_empty() {
+            break;
+        }
+        let runs = run_aging_batch(&cands);
+        let best = cands
+            .iter()
+            .zip(runs.iter())
+            .filter(|(_, run)| run.discarded.is_none() && run.vios.iter().any(|v| v.0 == class))
+            .map(|(c, _)| c)
+            .min_by_key(|c| (c.ops.len(), ticks_of(c), c.batch.is_some()));
+        match best {
+            Some(c) => cur = c.clone(),
+            None => break,
+        }
+    }
+    cur
+}
+
+fn aging_directed_cases() -> Vec<ACase> {
+    let x = vec![1u8, 2, 3, 4, 5]; // chunk size 2: [1,2] [3,4] [5]
+    let mk = |name: &str, min_age: u64, batch: Option<usize>, ops: Vec<AOp>| ACase { name: Some(name.to_string()), chunk: 2, min_age, batch, ops };
+    use AOp::*;
+    vec![
+        // The shortest history in which "a cycle decides on the records as they are when it runs" is the only thing between
+        // a live artifact and the collector: the chunks lose their last reference, a cycle sees them too young, the same
+        // content is written again (deduplicated onto them), they age, a later cycle of the SAME collector runs
+        // (Props2: gc_cycle_removes_only_records_unreferenced_when_it_runs, put_reads_back_on_long_lived_store,
+        // remembered_young_orphans_collect_rereferenced_chunk_witness).
+        mk("young-orphan-rereferenced-aged-gc", 0, None, vec![Put(x.clone()), Delete(0), Gc, Put(x.clone()), Tick(1), Gc, Get(1), Verify(1)]),
+        mk("young-orphan-rereferenced-aged-gc-min-age-2", 2, None, vec![Put(x.clone()), Delete(0), Gc, Put(x.clone()), Tick(1), Gc, Tick(2), Gc, Get(1), Verify(1)]),
+        // controls and neighbours
+        mk("young-orphan-aged-gc-collects", 0, None, vec![Put(x.clone()), Delete(0), Gc, Tick(1), Gc, Put(x.clone()), Get(1)]),
+        mk("young-orphan-min-age-1-boundary", 1, None, vec![Put(x.clone()), Delete(0), Gc, Tick(1), Gc, Tick(1), Gc]),
+        mk("young-orphan-seen-twice-rereferenced", 0, None, vec![Put(x.clone()), Delete(0), Gc, Gc, Put(vec![1, 2, 9]), Tick(1), Gc, Gc, Get(1)]),
+        mk("young-orphan-partly-rereferenced", 0, None, vec![Put(x.clone()), Delete(0), Gc, Put(vec![3, 4, 7, 7]), Tick(1), Gc, Get(1), Verify(1)]),
+        mk("young-orphan-rereferenced-deleted-again", 0, None, vec![Put(x.clone()), Delete(0), Gc, Put(x.clone()), Delete(1), Tick(1), Gc, Put(x.clone()), Get(2)]),
+        mk("young-orphan-rereferenced-by-open-writer", 0, None, vec![Put(x.clone()), Delete(0), Gc, WOpen(0), WWrite(0, vec![1, 2, 3, 4]), Tick(1), Gc, WWrite(0, vec![5]), WFinish(0), Get(1), Verify(1)]),
+        mk("young-orphan-rereferenced-by-stream", 0, None, vec![Put(x.clone()), Delete(0), Gc, Stream(vec![vec![1], vec![2, 3, 4, 5]]), Tick(1), Gc, Get(1)]),
+        mk("young-orphan-rereferenced-by-abandoned-writer", 0, None, vec![Put(x.clone()), Delete(0), Gc, Abandon(vec![vec![1, 2, 3, 4]]), Tick(1), Gc, Put(x.clone()), Get(1)]),
+        mk("shared-chunk-second-owner-deleted-later", 0, None, vec![Put(x.clone()), Put(vec![1, 2, 8]), Delete(0), Gc, Tick(1), Gc, Delete(1), Gc, Put(vec![1, 2]), Tick(1), Gc, Get(2)]),
+        // the background task runs on the same collector as gc()
+        mk("background-young-orphan-rereferenced-aged", 0, None, vec![Put(x.clone()), Delete(0), BgGc, Put(x.clone()), Tick(1), BgGc, Get(1), Verify(1)]),
+        mk("gc-then-background-young-orphan-rereferenced", 0, None, vec![Put(x.clone()), Delete(0), Gc, Put(x.clone()), Tick(1), BgGc, Get(1)]),
+        // a batch below the chunk count: cycles that see a part of the scan
+        mk("partial-batches-young-orphan-rereferenced", 0, Some(2), vec![Put(x.clone()), Delete(0), Gc, Gc, Put(x.clone()), Tick(1), Gc, Gc, Gc, Get(1)]),
+        mk("full-gc-and-repair-between-cycles", 1, None, vec![Put(x.clone()), Delete(0), Gc, Put(vec![1, 2]), FullGc, Put(x.clone()), Repair, Tick(2), Gc, Get(1), Get(2)]),
+    ]
+}
+
+/// Random histories on a long-lived store, biased towards: content that lost its last reference, a cycle while it is too
+/// young, the same or overlapping content written again, seconds passing, later cycles.
+fn gen_aging(r: &mut Rng, max_ticks: u32) -> ACase {
+    let c = *r.pick(&[1usize, 2, 2, 3, 4]);
+    let p = pool(r, c);
+    let min_age = *r.pick(&[0u64, 0, 0, 1, 1, 2]);
+    let batch = if r.chance(1, 7) { Some(1 + r.below(3) as usize) } else { None };
+    let small = |r: &mut Rng| -> Vec<u8> {
+        let mut d = Vec::new();
+        for _ in 0..r.below(4) {
+            d.extend_from_slice(&p.blocks[r.below(p.blocks.len() as u64) as usize]);
+        }
+        if d.is_empty() || r.chance(1, 3) {
+            d.extend_from_slice(&p.tails[r.below(p.tails.len() as u64) as usize]);
+        }
+        d
+    };
+    let mut ops: Vec<AOp> = vec![];
+    let mut datas: Vec<Vec<u8>> = vec![]; // by artifact index (empty when unknown)
+    let mut live: Vec<u32> = vec![];
+    let mut dead: Vec<Vec<u8>> = vec![];
+    let mut open: Vec<u32> = vec![];
+    let mut next_w = 0u32;
+    let mut ticks = 0u32;
+    let len = 6 + r.below(10) as usize;
+    let again = |r: &mut Rng, dead: &Vec<Vec<u8>>, small: &dyn Fn(&mut Rng) -> Vec<u8>| -> Vec<u8> {
+        if !dead.is_empty() && r.chance(2, 3) {
+            let mut d = r.pick(dead).clone();
+            match r.below(4) {
+                0 if d.len() > c => d.truncate(d.len() / c * c), // whole chunks only
+                1 => d.extend_from_slice(&small(r)),
+                _ => {}
+            }
+            d
+        } else {
+            small(r)
+        }
+    };
+    for _ in 0..1 + r.below(2) {
+        let d = small(r);
+        live.push(datas.len() as u32);
+        datas.push(d.clone());
+        ops.push(AOp::Put(d));
+    }
+    while ops.len() < len {
+        let op = match r.below(100) {
+            0..=15 => {
+                let d = again(r, &dead, &small);
+                live.push(datas.len() as u32);
+                datas.push(d.clone());
+                AOp::Put(d)
+            }
+            16..=20 => {
+                let d = again(r, &dead, &small);
+                live.push(datas.len() as u32);
+                datas.push(d.clone());
+                AOp::Stream(split_pieces(r, c, &d))
+            }
+            21..=23 => {
+                let d = again(r, &dead, &small);
+                AOp::Abandon(split_pieces(r, c, &d))
+            }
+            24..=43 if !live.is_empty() => {
+                let a = live.remove(r.below(live.len() as u64) as usize);
+                if !datas[a as usize].is_empty() {
+                    dead.push(datas[a as usize].clone());
+                }
+                AOp::Delete(a)
+            }
+            44..=66 => AOp::Gc,
+            67..=70 if batch.is_none() => AOp::BgGc,
+            71..=82 if ticks < max_ticks => {
+                let n = (*r.pick(&[1u32, 1, 1, 2])).min(max_ticks - ticks);
+                ticks += n;
+                AOp::Tick(n)
+            }
+            83..=85 if open.len() < 2 => {
+                let w = next_w;
+                next_w += 1;
+                open.push(w);
+                AOp::WOpen(w)
+            }
+            86..=90 if !open.is_empty() => {
+                let d = again(r, &dead, &small);
+                AOp::WWrite(*r.pick(&open), d)
+            }
+            91..=93 if !open.is_empty() => {
+                live.push(datas.len() as u32);
+                datas.push(vec![]);
+                AOp::WFinish(open.remove(r.below(open.len() as u64) as usize))
+            }
+            94 if !open.is_empty() => AOp::WDrop(open.remove(r.below(open.len() as u64) as usize)),
+            95 if open.is_empty() => AOp::FullGc,
+            96 if open.is_empty() => AOp::Repair,
+            97 if !datas.is_empty() => AOp::Verify(r.below(datas.len() as u64) as u32),
+            _ if !datas.is_empty() => AOp::Get(r.below(datas.len() as u64 + 1) as u32),
+            _ => AOp::Gc,
+        };
+        ops.push(op);
+    }
+    for w in open {
+        ops.push(AOp::WFinish(w));
+    }
+    if ticks < max_ticks && r.chance(3, 4) {
+        ops.push(AOp::Tick((1 + min_age as u32).min(max_ticks - ticks)));
+    }
+    ops.push(AOp::Gc);
+    ACase { name: None, chunk: c, min_age, batch, ops }
+}
+
+/// One batch: run the cases on the wall clock, compare every operation with the clocked model, report the oracles.
+fn aging_batch(m: &mut Model, rep: &mut Report, stream: &str, cases: &[ACase], shrunk: &mut BTreeSet<String>) {
+    let runs = run_aging_batch(cases);
+    for run in runs {
+        for h in &run.hits {
+            rep.hit(h);
+        }
+        if let Some(why) = run.discarded {
+            rep.hit(&format!("aging.case_dropped.{why}"));
+            continue;
+        }
+        let case = &run.case;
+        let input = || acase_json(case);
+        // ---- correspondence: answer + full image after every operation, the model clock following the real seconds
+        let mut lines: Vec<String> = vec![format!("reset {} -", case.chunk), format!("clock {CLOCK0} {}", case.min_age)];
+        m.ask(&lines[0]);
+        m.ask(&lines[1]);
+        for (i, rec) in run.recs.iter().enumerate() {
+            for t in &rec.pre {
+                m.ask(t);
+                lines.push(t.clone());
+            }
+            let both = m.ask(&format!("! c {}", rec.line));
+            lines.push(format!("c {}", rec.line));
+            let (mut mo, mimg) = match both.split_once('\t') {
+                Some((a, b)) => (a.to_string(), b.to_string()),
+                None => (both.clone(), "<no image>".to_string()),
+            };
+            if rec.bg && mo.starts_with("ok ") {
+                mo = "ok".to_string(); // the task drops the cycles' statistics
+            }
+            let a = rep.compare(&format!("{stream}.answer"), || json!({"case": input(), "at": i, "line": rec.line}), &rec.imp, &mo);
+            let b = rep.compare(&format!("{stream}.image"), || json!({"case": input(), "at": i, "line": rec.line}), &rec.image, &mimg);
+            if !(a && b) {
+                break; // the oracles below were evaluated on the real store alone, over the whole case
+            }
+        }
+        let key = lines.join(";");
+        rep.case(stream, if run.wrote && run.changed { Some(&key) } else { None });
+        if let Some(n) = &case.name {
+            rep.hit(&format!("aging.directed.{n}.{}", run.vios.first().map(|v| v.0.clone()).unwrap_or_else(|| "pass".into())));
+            if rep.samples.len() < 12 && n == "young-orphan-rereferenced-aged-gc" {
+                rep.sample(json!({"stream": stream, "name": n, "lines": lines}));
+            }
+        }
+        // ---- oracle failures, with a shrunk input for the first case of every class
+        for (class, what, at) in &run.vios {
+            let inp = if shrunk.len() < 4 && shrunk.insert(class.clone()) {
+                let small = shrink_aging(case, class);
+                rep.hit("shrunk.aging");
+                let mut j = acase_json(&small);
+                j["shrunk_from"] = json!({"ops": case.ops.len(), "name": case.name});
+                j
+            } else {
+                let mut j = input();
+                j["failed_at_op"] = json!(at);
+                j
+            };
+            vio(rep, class, what, inp);
+        }
+    }
+}
+
+fn aging_stream(m: &mut Model, rep: &mut Report, r: &mut Rng, batches: u64, per_batch: usize, max_ticks: u32, with_directed: bool) {
+    let mut shrunk: BTreeSet<String> = BTreeSet::new();
+    let t0 = std::time::Instant::now();
+    for b in 0..batches {
+        // the directed cases come first in their batch: they run right after each second boundary
+        let mut cases: Vec<ACase> = if b == 0 && with_directed { aging_directed_cases() } else { vec![] };
+        while cases.len() < per_batch {
+            cases.push(gen_aging(r, max_ticks));
+        }
+        aging_batch(m, rep, "aging", &cases, &mut shrunk);
+    }
+    rep.hit_n("aging.wall_clock_ms", t0.elapsed().as_millis() as u64);
+}
+
 fn main() {
     let args = parse_args();
     let mut rep = Report::new(
@@ -2420,6 +3271,10 @@ fn main() {
         "conc.call.gc.sc", "conc.call.gc.g", "conc.call.gc.d",
         "conc.call.full_gc.sm", "conc.call.full_gc.gm", "conc.call.full_gc.sc", "conc.call.full_gc.g", "conc.call.full_gc.d",
         "conc.double_decrement.reproduced",
+        // the long-lived store under the wall clock
+        "aging.op.put.ok", "aging.op.stream.ok", "aging.op.abandon.ok", "aging.op.wwrite.ok", "aging.op.wfinish.ok", "aging.op.delete.ok", "aging.op.gc.ok", "aging.op.gcsel.ok",
+        "aging.op.background_gc.ok", "aging.op.fullgc.ok", "aging.op.repair.ok", "aging.op.get.ok", "aging.gc_batch.partial",
+        "aging.shape.young_orphan_seen_then_rereferenced_then_cycle_after_it_aged",
     ]
     .iter()
     .map(|x| x.to_string())
@@ -2429,6 +3284,8 @@ fn main() {
     let scale: u64 = if args.thorough { 12 } else { 1 };
 
     directed(&mut m, &mut rep);
+    // one long-lived store per case under the wall clock: directed cases first, then the random cases of the same batch
+    aging_stream(&mut m, &mut rep, &mut root.fork("aging"), if args.thorough { 14 } else { 1 }, if args.thorough { 160 } else { 110 }, if args.thorough { 4 } else { 3 }, true);
     // the witness interleavings of the known findings (and the safe mixes) run before every random stream
     conc_directed(&mut m, &mut rep, &mut root.fork("conc-directed"));
     chunker_stream(&mut m, &mut rep, &mut root.fork("chunker"), 1500 * scale);
@@ -2443,6 +3300,7 @@ fn main() {
 
     rep.note("SHA-256 is opaque: the model is keyed by the chunk bytes themselves; the harness checks every new chunk record is keyed by compute_hash(data)");
     rep.note("`_created` stamps are rewritten to logical ticks by the harness (no clock hook); the strict `<` of gc_cycle is therefore exercised in ticks, not in wall-clock seconds");
+    rep.note("stream `aging`: ONE BlobStore (one GarbageCollector, fixed gc_min_age 0..2 s) per case, `_created` left as written, time = the wall clock (cases run in lockstep, one second boundary per tick); the model clock follows the seconds the real operations ran in; a case in which the second changed during a clock-reading operation is dropped (aging.case_dropped.*)");
     rep.note("gc_cycle batch_size is kept above the number of chunks in compared streams (scan order is unspecified)");
     rep.write(&args.out);
 }
